@@ -5,7 +5,7 @@ from concurrent.futures import ThreadPoolExecutor
 VERIF = os.path.dirname(os.path.dirname(os.path.abspath(__file__)))
 REPO = os.environ.get('VERIF_REPO', '/repo')
 GUARD = 'EZC3D_VERIF'
-BASE_FLAGS = ['-std=c++11', '-D_GLIBCXX_ASSERTIONS', '-D' + GUARD, '-fno-vectorize', '-fno-slp-vectorize', '-fno-unroll-loops',
+BASE_FLAGS = ['-std=c++11', '-D_GLIBCXX_ASSERTIONS', '-D' + GUARD, '-fno-vectorize', '-fno-slp-vectorize', '-fno-unroll-loops', '-mllvm', '-vectorize-slp=false', '-mllvm', '-vectorize-loops=false',
               '-Wno-everything', '-I' + os.path.join(VERIF, 'shim'), '-I' + os.path.join(REPO, 'include'), '-I' + os.path.join(VERIF, 'harness')]
 
 def _cc(args):
